@@ -183,15 +183,17 @@ def run(case, ctx):
     rng = rng_for(ctx["seed"], ID, case["i"])
     D = case["D"]
     N = 3
-    torus = bool(rng.integers(0, 2))
+    # spatial extents: cubes and non-square boxes; per-axis boundary flags (they travel with their axes under g)
+    sp = (N,) * D if rng.integers(0, 2) else tuple(int(v) for v in rng.integers(3, 5, size=D))
+    torus = tuple(bool(v) for v in rng.integers(0, 2, size=D)) if rng.integers(0, 2) else (bool(rng.integers(0, 2)),) * D
     g_ = Gen(rng, D, int(rng.integers(2, (5 if ctx["tier"] == "quick" else 7) + 1)))
     root_k = int(rng.integers(0, 3))
     tree = g_.gen(root_k, int(rng.integers(0, 2)), g_.max_depth)
     ops = []
     count_ops(tree, ops)
     ts = tree_str(tree)
-    leaf_data = [rng.integers(-2, 3, size=(N,) * D + (D,) * k).astype(np.float32) for _, k, p in g_.leaves]
-    mk = lambda arrs: [geom.GeometricImage(jnp.asarray(a), p, D, torus) for a, (_, k, p) in zip(arrs, g_.leaves)]
+    leaf_data = [rng.integers(-2, 3, size=((N,) * D if kind == "filter" else sp) + (D,) * k).astype(np.float32) for kind, k, p in g_.leaves]
+    mk = lambda arrs, tor=torus: [geom.GeometricImage(jnp.asarray(a), p, D, tor) for a, (_, k, p) in zip(arrs, g_.leaves)]
     viols, evals = [], 0
     try:
         base_trace = []
@@ -214,7 +216,7 @@ def run(case, ctx):
             gl = [ract.act(D, a, k, p, g).astype(np.float32) for a, (_, k, p) in zip(leaf_data, g_.leaves)]
             tr = []
             try:
-                evaluate(tree, mk(gl), tr)
+                evaluate(tree, mk(gl, rgroup.transport(g, torus)), tr)
                 evals += 1
             except Exception as e:
                 viols.append(viol(f"algebra-exception-{type(e).__name__}", f"{type(e).__name__}: {str(e)[:200]} on g.L for {ts}"))
@@ -223,6 +225,9 @@ def run(case, ctx):
                 want = ract.act(D, np.asarray(r0.data), r0.k, r0.parity, g)
                 got = np.asarray(r1.data)
                 scale = max(1.0, float(np.max(np.abs(want))) if want.size else 1.0)
+                if tuple(r1.is_torus) != rgroup.transport(g, tuple(r0.is_torus)):
+                    viols.append(viol("node-flags-not-transported", f"node {idx} ({name}): boundary flags {r1.is_torus} on g.L, expected {rgroup.transport(g, tuple(r0.is_torus))}; tree {ts}", node=idx, g=g.tolist()))
+                    break
                 if got.shape != want.shape or float(np.max(np.abs(got - want))) > 1e-4 * scale:
                     viols.append(viol(f"node-not-equivariant-{name.split('[')[0]}", f"first diverging node {idx} ({name}, declared (k={r0.k},p={r0.parity})): E(g.L) != g.E(L) for g={g.tolist()}; tree {ts}", node=idx, g=g.tolist(), got=small(got), want=small(want)))
                     break
@@ -231,7 +236,7 @@ def run(case, ctx):
     # extra laws on fresh operands
     if not viols:
         k = int(rng.integers(2, (4 if D == 2 else 3) + 1))
-        A = geom.GeometricImage(jnp.asarray(rng.integers(-2, 3, size=(N,) * D + (D,) * k).astype(np.float32)), 0, D, torus)
+        A = geom.GeometricImage(jnp.asarray(rng.integers(-2, 3, size=sp + (D,) * k).astype(np.float32)), 0, D, torus)
         i, j = (int(v) for v in rng.choice(k, size=2, replace=False))
         if not np.array_equal(np.asarray(A.contract(i, j).data), np.asarray(A.contract(j, i).data)):
             viols.append(viol("contract-order-inside-pair", f"contract({i},{j}) != contract({j},{i}) for k={k}"))
@@ -244,8 +249,8 @@ def run(case, ctx):
             if not (np.array_equal(a, b) and np.array_equal(a, c)):
                 viols.append(viol("contract-pair-order", f"multicontract depends on the order of pairs {p1},{p2}"))
         k1, k2 = int(rng.integers(0, 3)), int(rng.integers(0, 2))
-        X = geom.GeometricImage(jnp.asarray(rng.integers(-2, 3, size=(N,) * D + (D,) * k1).astype(np.float32)), 1, D, torus)
-        Y = geom.GeometricImage(jnp.asarray(rng.integers(-2, 3, size=(N,) * D + (D,) * k2).astype(np.float32)), 0, D, torus)
+        X = geom.GeometricImage(jnp.asarray(rng.integers(-2, 3, size=sp + (D,) * k1).astype(np.float32)), 1, D, torus)
+        Y = geom.GeometricImage(jnp.asarray(rng.integers(-2, 3, size=sp + (D,) * k2).astype(np.float32)), 0, D, torus)
         xy, yx = X * Y, Y * X
         perm = tuple(range(k2, k1 + k2)) + tuple(range(k2))
         if not np.array_equal(np.asarray(xy.data), np.asarray(yx.transpose(perm).data)) or xy.parity != yx.parity:
@@ -253,7 +258,7 @@ def run(case, ctx):
         evals += 3
     nontrivial = len(ops) >= 2 and bool(np.any(np.asarray(root.data) != 0))
     return result(ts, viols, nontrivial, evals=evals, obs={"tree_evaluations": evals, "nodes_compared": len(base_trace) * max(1, evals - 4)},
-                  hist={"D": D, "ops": ops, "n_ops": min(len(ops), 12), "root_k": root_k}, sample={"tree": ts, "leaves": g_.leaves[:6]})
+                  hist={"D": D, "ops": ops, "n_ops": min(len(ops), 12), "root_k": root_k, "shape": "cube" if len(set(sp)) == 1 else "non-square", "flags": "uniform" if len(set(torus)) == 1 else "mixed"}, sample={"tree": ts, "leaves": g_.leaves[:6]})
 
 
 def finalize(tier, results, obs, hist, metas):
